@@ -1,5 +1,6 @@
 """C11 — Data-type conversion rounds to nearest and saturates, never wraps."""
 import itertools
+import os
 import struct
 from fractions import Fraction
 
@@ -10,7 +11,7 @@ from .. import core
 RULE = ("all 10 input types x 5 Neuroglancer output types; values: type limits and limits±1, 0, ±0.5, ±1.5, "
         "±2.5, 254.5, 255.5, 65535.5, near-ties k+0.5±2^-j and ±1 ulp (double-rounding probes),  2^24±1, 2^31, 2^32±1, 2^53±1, 2^63, 2^64 (±1 ulp), ±1e30, float "
         "subnormals and random values; each evaluated with preserve_input True and False on contiguous, "
-        "strided and read-only arrays; result compared with the exact nearest-value oracle and the Lean "
+        "strided, read-only, big-endian, memory-mapped (r+ and r) and ndarray-subclass arrays; result compared with the exact nearest-value oracle and the Lean "
         "model; input bytes hashed before/after. Trivial = identical input/output type.")
 ASSUMPTIONS = [
     "NaN and infinities are outside the property (finite values); a finite float64 beyond the float32 range "
@@ -89,6 +90,11 @@ def run(ctx):
     rng = ctx.rng
     reqs, meta = [], []
     plan_reqs, plan_meta = [], []
+    import atexit
+    import shutil
+    import tempfile
+    mm_dir = tempfile.mkdtemp(prefix="ngv_c11_")
+    atexit.register(shutil.rmtree, mm_dir, True)
     for inT, outT in itertools.product(IN_TYPES, OUT_TYPES):
         din, dout = np.dtype(inT), np.dtype(outT)
         vals = values_for(inT, rng)
@@ -100,8 +106,18 @@ def run(ctx):
             continue
         results = {}
         for preserve in (True, False):
-            for layout in ("contiguous", "strided", "readonly"):
-                if layout == "contiguous":
+            for layout in ("contiguous", "strided", "readonly", "bigendian", "memmap", "memmap-readonly", "subclass"):
+                if layout == "bigendian":
+                    # same values in the non-native byte order (what a big-endian file gives)
+                    x = a.astype(din.newbyteorder(">"))
+                elif layout in ("memmap", "memmap-readonly"):
+                    # what nibabel hands out for an uncompressed file: an ndarray SUBCLASS backed by the file
+                    mm_path = os.path.join(mm_dir, f"{inT}_{outT}_{int(preserve)}_{layout}.dat")
+                    a.tofile(mm_path)
+                    x = np.memmap(mm_path, dtype=din, mode="r+" if layout == "memmap" else "r", shape=a.shape)
+                elif layout == "subclass":
+                    x = a.copy().view(np.recarray) if False else a.copy().view(type("Sub", (np.ndarray,), {}))
+                elif layout == "contiguous":
                     x = a.copy()
                 elif layout == "strided":
                     big = np.zeros(2 * len(a), dtype=din)
@@ -121,6 +137,13 @@ def run(ctx):
                 if preserve and x.tobytes() != before:
                     ctx.oracle_fail("the input array was modified although preserve_input=True",
                                     {"in": inT, "out": outT, "array": layout})
+                if preserve and layout.startswith("memmap"):
+                    del x
+                    with open(mm_path, "rb") as fh:
+                        if fh.read() != before:
+                            ctx.oracle_fail("the FILE behind a memory-mapped input was modified although "
+                                            "preserve_input=True", {"in": inT, "out": outT, "array": layout})
+                    x = a
                 if y.dtype != dout or y.shape != x.shape:
                     ctx.oracle_fail("conversion result has the wrong dtype or shape",
                                     {"in": inT, "out": outT, "got": str(y.dtype)})
